@@ -14,7 +14,7 @@ RULE = ('deviation-bounded product (<=3 of 12 slots: labile, static rule incl. N
         'slot set')
 ASSUMPTIONS = ['masses are compared on the neutral peptide (charge carriers are not modifications): the charge/adducts of '
                'input and output are ignored by computing both masses with charge=0 and no adducts',
-               'budget: (#numeric shifts written) * 0.5*10^-precision + 1e-6',
+               'budget: (#numeric shifts written) * 0.5*10^-precision + 1e-9 (float noise)',
                '"shifts sit on the residues and termini that were modified": a residue/terminus carries a shift iff it '
                'carries a modification in the explicit form (static rules and labels expanded); unknown-position and '
                'interval modifications stay unknown-position / interval shifts']
@@ -43,7 +43,7 @@ def values_at(axis, level, n):
     if axis == 'isotope':
         return [['13C'], ['15N'], ['13C', '15N'], ['18O'], ['D'], ['18O', '13C']]
     if axis == 'iv':
-        mls = [[['Oxidation', 1]], [['1.5', 2]], None]
+        mls = [[['Oxidation', 1]], [['1.5', 2]], [['Formula:C2H2O', 1]], None]
         return [[[a, b, amb, ml]] for (a, b) in ((0, 2), (1, n)) for amb in (False, True) for ml in mls
                 if not (ml is None and not amb)]
     if axis == 'charge':
@@ -122,7 +122,11 @@ def check(case, ctx):
             if st2 != 'ok':
                 ctx.fail('mass-of-output-raises', 'mass', m_out, call=call, output=out)
                 continue
-            budget = nshifts * 0.5 * 10 ** (-prec) + 1e-6
+            budget = nshifts * 0.5 * 10 ** (-prec) + 1e-9   # no shift of the alphabets is below the library's 1e-6 cut
+            if P.get('isotope'):
+                # under a label the input is weighed through compositions, the output through tabulated masses of the
+                # named modifications: they differ by up to ~5e-7 per tabulated entry (6-decimal table, C03's subject)
+                budget += 1e-6 * max(1, refmass.n_mass_terms(P))
             if abs(m_out - m_in) > budget:
                 ctx.fail('mass-changed', m_in, m_out, call=call, output=out, deviation=m_out - m_in, budget=budget,
                          has_charge=P.get('charge') is not None, has_unknown=bool(P.get('unknown')),
